@@ -22,6 +22,7 @@ RULES = [
     Rule('C12.R3', 'program / key index into the 128 entries is in range', 3),
     Rule('C12.R4', 'bank API and note-on share one instrument storage; the chip-channel cache is refreshed on patch updates', 3),
     Rule('C12.R5', 'percussion role tests and the GS guard of the XG drum-bank test', 4),
+    Rule('C12.R7', 'the bank bytes of a channel stay within 0..127 for every argument value (bit 7 of the MSB is the percussion tag of the bank key, bit 7 of the LSB survives the LSB-cleared fallback)', 2),
     Rule('C12.R6', 'every function storing the bank bytes also updates the XG percussion role', 5),
 ]
 EXPLANATION = ('AST agreement rules: the bank-key expressions of OPNMIDIplay::LoadBank, opn2_getBank, opn2_getBankId and realTime_NoteOn are normalised to linear forms '
@@ -311,4 +312,14 @@ def analyse(facts, tier):
             continue
         obls.append(Obl('C12.R6', fname, 'bank bytes stored%s' % (' (%s)' % ','.join(cases) if cases else ''), d['loc'], 'discharged' if d['role'] else 'finding',
                         why='performs the XG percussion-role update after the stores' if d['role'] else 'stores the bank bytes without the role update that CC0/CC32 perform: the next note plays the wrong kind of bank'))
+    # ---- R7: value range of the stored bank bytes over all stores of the program (interval engine, API arguments at full type range)
+    res7 = res
+    for fld in ('bank_msb', 'bank_lsb'):
+        v = res7['field_ranges'].get('OPNMIDIplay::MIDIchannel::' + fld)
+        if v is None:
+            raise build.AnalysisBroken('C12.R7: no stores of MIDIchannel::%s seen by the interval engine' % fld)
+        ok = v.lo >= 0 and v.hi <= 127
+        obls.append(Obl('C12.R7', 'OPNMIDIplay', 'range of MIDIchannel::' + fld, non.loc, 'discharged' if ok else 'finding',
+                        why='join of all stores: %s' % v if ok else
+                        'a store of MIDIchannel::%s can reach %s: realTime_NoteOn builds the bank key as msb * 256 + lsb, so bit 7 of the MSB selects a percussion bank for a melodic channel and bit 7 of the LSB survives the `& ~0x7F` fallback' % (fld, v)))
     return obls
